@@ -94,6 +94,7 @@ def fields_for(Fax):
 def check(rep, an, tier):
     R.rule_alias(rep, an.model, "dreye.api.estimator", "ReceptorEstimator", "gamut_l1_scaling", "hull_l1_scaling")
     R.rule_alias(rep, an.model, "dreye.api.estimator", "ReceptorEstimator", "gamut_dist_scaling", "hull_dist_scaling")
+    R.rule_facet_pairs(rep, an.model, entry="hull_l1_scaling → proj_P_to_simplex")
     spec = hooks()
     for meth in ("hull_l1_scaling", "hull_dist_scaling"):
         for rel in (True, False):
